@@ -295,7 +295,8 @@ pub fn run(ctx: &Ctx) {
     let pts: Vec<(String, Vec<u8>)> = vec![("empty".into(), vec![]), ("small".into(), b"attack at dawn\n".to_vec()), ("3-chunk".into(), rng.bytes(65536 * 2 + 999))];
     let mut reqs: Vec<(Request, Expect)> = Vec::new();
     for (pname, pt) in &pts {
-        let chunking = refspec::natural_chunking(pt.len(), 65536);
+        // the "small" plaintext is split into short chunks (as a pipe-fed encryptor would): legal, and it must not matter
+        let chunking = if pname == "small" { vec![5usize, 4, pt.len() - 9] } else { refspec::natural_chunking(pt.len(), 65536) };
         // encrypt requests
         reqs.push((
             Request { name: format!("encrypt {}", pname), kind: Kind::Encrypt, input: pt.clone(), keyring: kr_ab.clone(), password: a.password.clone(), to: b.name.clone(), from: a.name.clone() },
@@ -327,7 +328,7 @@ pub fn run(ctx: &Ctx) {
         let mut x = f.clone();
         x.push(0);
         variants.push(("one byte appended".into(), x));
-        if chunking.len() == 3 {
+        if chunking.len() == 3 && pt.len() > 100_000 {
             let mut x = f.clone();
             x[132 + 65568 + 500] ^= 2;
             variants.push(("second chunk corrupted".into(), x));
@@ -557,6 +558,39 @@ pub fn run(ctx: &Ctx) {
             }
         }
     }
+    // stdout is a pipe whose reader has gone away: the operation did not complete, so exit 1 with an error
+    {
+        let pt = &pts[2].1;
+        let f = refspec::encode_key_file(&a.sk, &a.pk, &b.pk, &rng.arr32(), &rng.arr32(), pt, &refspec::natural_chunking(pt.len(), 65536)).unwrap();
+        let pf = refspec::encode_pass_file(b"pp", &rng.arr32(), pt, &refspec::natural_chunking(pt.len(), 65536));
+        let dir = w.wd.path.join("closed");
+        let _ = std::fs::create_dir_all(&dir);
+        std::fs::write(dir.join("kr.txt"), &kr_ab).unwrap();
+        std::fs::write(dir.join("in.ktl"), &f).unwrap();
+        std::fs::write(dir.join("pin.ktl"), &pf).unwrap();
+        std::fs::write(dir.join("in.bin"), pt).unwrap();
+        let runs: Vec<(&str, Vec<&str>, &str, Stdin)> = vec![
+            ("decrypt FILE", vec!["decrypt", "in.ktl", "-t", &b.name, "-k", "kr.txt", "--env-pass"], &b.password, Stdin::Null),
+            ("decrypt <stdin", vec!["dec", "--to", &b.name, "--keyring", "kr.txt", "--env-pass"], &b.password, Stdin::Bytes(f.clone())),
+            ("password decrypt FILE", vec!["password", "decrypt", "pin.ktl", "--env-pass"], "pp", Stdin::Null),
+            ("encrypt FILE", vec!["encrypt", "in.bin", "-t", &b.name, "-f", &a.name, "-k", "kr.txt", "--env-pass"], &a.password, Stdin::Null),
+            ("password encrypt <stdin", vec!["pass", "enc", "--env-pass"], "pp", Stdin::Bytes(pt.clone())),
+        ];
+        for (what, args, pw, stdin) in runs {
+            for sink in [Stdout::ClosedPipe, Stdout::DevFull] {
+                let o = Cmd::new(&dir, &args).pass(pw).stdin(stdin.clone()).stdout(sink.clone()).run();
+                ctx.eval();
+                if o.exit == Exit::Code(1) && o.has_error_line() {
+                    ctx.seen(&format!("failing stdout sink ({:?}) -> exit 1 + Error:", sink));
+                    ctx.distinct(&format!("sink|{}|{:?}", what, sink));
+                } else if o.exit == Exit::Timeout {
+                    ctx.inconclusive("C12: timeout on a failing sink");
+                } else {
+                    ctx.violation(&format!("C12:exit-status-hides-a-failed-output:{:?}", sink), json!({"command": what, "sink": format!("{:?}", sink), "exit": o.exit.describe(), "stderr": o.stderr_s()}));
+                }
+            }
+        }
+    }
     // failing sinks and usage errors must not exit 0
     let wd = &w.wd;
     wd.write("kr.txt", kr_ab.as_bytes());
@@ -602,6 +636,8 @@ pub fn run(ctx: &Ctx) {
     ctx.require("decrypt: sender named by its keyring entry", 15);
     ctx.require("decrypt: unknown sender reported with its encoding", 3);
     ctx.require("size-limited sink (-o)", 4);
+    ctx.require("failing stdout sink (ClosedPipe)", 5);
+    ctx.require("failing stdout sink (DevFull)", 5);
     ctx.require("successful run onto an existing output path", 12);
     ctx.require("size-limited sink (stdout)", 4);
 }
